@@ -9,6 +9,16 @@ tag, outdir = sys.argv[1], sys.argv[2]
 here = os.path.dirname(os.path.dirname(os.path.abspath(__file__)))
 os.makedirs(outdir, exist_ok=True)
 ANGLE = {
+    "r9": "This round, prefer one of: (a) a defect that only shows under a particular interleaving or timing between two or three nodes / radios "
+          "(a frame arriving while a call is in progress, two payloads in the RX FIFO at once, an ACK arriving late, a node busy transmitting "
+          "when it is addressed); (b) a fault at one particular point of a multi-step exchange (the k-th packet or only its ACK lost, a peer that "
+          "stops listening half way, a full queue or full FIFO at the wrong moment, an exception raised by a callback or by invalid user input "
+          "in the middle of a sequence) after which state is left inconsistent; (c) a long-running program: values that drift or wrap after many "
+          "operations, tables that fill up, entries that are never evicted, caches that go stale after a node moves or re-joins; "
+          "(d) an edit in a helper that several public calls share, which is only wrong for ONE of its callers; "
+          "(e) an interaction between two features that are each fine alone (ACK payloads x dynamic payloads off on some pipe, fragmentation x "
+          "multicast relay, mesh x a node that is also a relay, FakeBLE x another driver object on the same radio, address width 3 x pipes 2-5 ...). "
+          "Avoid module-level / class-level shared mutable defaults (already done several times).",
     "r8": "This round, prefer one of: (a) two cooperating edits in different functions or files that each look harmless alone; "
           "(b) state that survives across calls or objects (a cached value, a counter that wraps - frame ids are 16 bit, radio packet ids 2 bit, "
           "fragment counters, lease tables - a buffer that is reused, a flag that is not cleared on an error path); "
@@ -55,7 +65,8 @@ Changes of the following kinds were already produced for this property - do NOT 
 For each change k in (1, 2) write into {out}/ (create the directory):
   patch{{k}}.diff  - `git diff` of the worktree with ONLY that change (relative paths, applies with `git apply` at the worktree root on a clean checkout)
   demo{{k}}.py     - a standalone program, run as `/venv/bin/python {out}/demo{{k}}.py` with the worktree root as current directory (so
-                    `import circuitpython_nrf24l01` picks up the worktree), that exits 0 on the unchanged library and exits non-zero
+                    `import circuitpython_nrf24l01` must pick up the worktree: begin the demo with `import os, sys; sys.path.insert(0, os.getcwd())`,
+                    because a script's own directory, not the current directory, is on sys.path and an installed copy would be imported instead), that exits 0 on the unchanged library and exits non-zero
                     (assertion / explicit sys.exit(1)) with the change applied. It must be deterministic, finish in under 60 s, use no network, no
                     real hardware and nothing outside the standard library + the worktree: build whatever fake SPI / radio / air you need inside
                     the demo (the tests' conftest shows how a fake spidev is injected; you will usually need something more behavioural - e.g. a
